@@ -334,7 +334,7 @@ Definition pr_in (s : st) (a : allowed_t) : bool :=
   | None => false
   end.
 Definition outcomes (p : phase) (threads : list (list event)) : list st :=
-  explore 24 (phase_state (phase_webrtc p) p) (map (map (@Some event)) threads).
+  explore 40 (phase_state (phase_webrtc p) p) (map (map (@Some event)) threads).
 Definition row_ok (row : phase * list event * allowed_t) : bool :=
   let '(p, evs, a) := row in
   forallb (fun s => visible_end s && pr_in s a) (outcomes p [evs]).
